@@ -128,7 +128,7 @@ impl Scenario for C26Scn {
         "C26"
     }
     fn rule(&self) -> &'static str {
-        "a server exposes the hand-written interface corpus at two paths and the generated corpus (tools/gen_corpus.py: 16 interfaces, ~56 echoing methods with random signatures over a type pool, sync/async, &self/&mut self, fallible or not, spawn on/off) (hand-written: 10 methods: sync/async, &self/&mut self, infallible / fdo::Result / custom DBusError, tuple returns, arrays, variants, nested structs, handlers that sleep on the simulated clock) at two paths; the raw peer sends 1..8 calls, several in flight: correct, unknown path / interface / member, one argument of the wrong type, last argument missing, one argument too many, with and without the no-reply flag; seeded splits, write stalls, schedules; oracle: handler log == exactly the calls whose path, interface, member and argument types match (with equal argument values), and per call exactly one reply with the right reply serial, signature and value / error name (none if the flag is set and the handler ran); non-trivial = at least two calls of which one fails at a pre-handler stage and one reaches a handler"
+        "a server exposes the hand-written interface corpus at two paths and the generated corpus (tools/gen_corpus.py: 16 interfaces, ~56 echoing methods with random signatures over a type pool, sync/async, &self/&mut self, fallible or not, spawn on/off) (hand-written: 10 methods: sync/async, &self/&mut self, infallible / fdo::Result / custom DBusError, tuple returns, arrays, variants, nested structs, handlers that sleep on the simulated clock) at two paths; the raw peer sends 1..8 calls (one run in 30: a flood of 70..110 back-to-back calls, more than the dispatch queue of 64 holds), several in flight: correct, unknown path / interface / member, one argument of the wrong type, last argument missing, one argument too many, with and without the no-reply flag; seeded splits, write stalls, schedules; oracle: handler log == exactly the calls whose path, interface, member and argument types match (with equal argument values), and per call exactly one reply with the right reply serial, signature and value / error name (none if the flag is set and the handler ran); non-trivial = at least two calls of which one fails at a pre-handler stage and one reaches a handler"
     }
     fn runs(&self, tier: Tier) -> u64 {
         match tier {
@@ -149,7 +149,9 @@ impl Scenario for C26Scn {
     fn generate(&self, rng: &mut Rng, _idx: u64, _tier: Tier) -> (SchedCfg, Value) {
         let ms = targets();
         let n_hand = methods_a().len();
-        let n = rng.range(1, 8);
+        // one run in 30 is a flood: more calls than the dispatcher's queue (64) holds
+        let flood = rng.chance(1, 30);
+        let n = if flood { rng.range(70, 110) } else { rng.range(1, 8) };
         let mut calls = vec![];
         for _ in 0..n {
             let method = if rng.chance(1, 2) { rng.usize(n_hand) } else { n_hand + rng.usize(ms.len() - n_hand) };
@@ -166,7 +168,7 @@ impl Scenario for C26Scn {
             if !mutate_args(rng, stage, &mut args) {
                 stage = Stage::Good;
             }
-            calls.push(Call { path: rng.below(2) as u8, method: method as u16, stage, args, no_reply: rng.chance(1, 6), gap: rng.below(3) as u8 });
+            calls.push(Call { path: rng.below(2) as u8, method: method as u16, stage, args, no_reply: rng.chance(1, 6), gap: if flood { 0 } else { rng.below(3) as u8 } });
         }
         let sched = SchedCfg::generate(rng, &["obj_server_task", "method dispatcher", "socket reader"]);
         (sched, j(&P { calls, link_in: gen_read_cfg(rng), link_out: gen_write_cfg(rng) }))
